@@ -54,6 +54,8 @@ type c11 struct {
 
 	sentinels map[*ssa.Global]bool
 	allFns    []*ssa.Function
+
+	touchDepth int
 }
 
 func runC11(c *Ctx) {
@@ -64,6 +66,7 @@ func runC11(c *Ctx) {
 		"R2-refusal (E1 prover): at the first conn.Write the dominating guards entail len(data) <= 2^k-1, k = number of low bits of len(data) the header carries (so narrowing is lossless; with R1, k=17 and the bound is 0x1FFFF), and every return of Send that is not preceded by a Write carries a certainly non-nil error (errors.New / fmt.Errorf / a boxed concrete value / a sentinel: a module-level error variable assigned exactly once, in its package initialiser, from such a value / an in-module constructor all of whose returns are such values). " +
 		"R3-io: every use of the connection in Receive is io.ReadFull/io.ReadAtLeast(…, len(buf)), directly or through an in-module wrapper that performs exactly one such read — into its buffer parameter, or into a make([]byte, n) it allocates for its size parameter and returns — and reports a nil error exactly when that read succeeded; each read's error is tested; the header read fills exactly 4 bytes; the payload read is dominated by the header read's success edge and fills make([]byte, length) with exactly the decoded length; every return with a possibly-nil error returns that very buffer and is dominated by the success edge of all reads (or propagates the last read's own error). In Send every use of the connection is a Write and the Write arguments, concatenated, are exactly 4 header bytes followed by the caller's data — in ONE Write call, or each further Write is dominated by the success edge of the previous one. " +
 		"R4-type: frame[0] is the constant netbios.SESSION_MESSAGE; in Receive the payload allocation is dominated by the header[0]==SESSION_MESSAGE edge. " +
+		"Delegation: when Send / Receive only hand the connection (or the transport itself) to ONE in-module function — writeSessionMessage(io.Writer, data) / readSessionMessage(io.Reader), a method such as n.sendFrame(data) — that function is analysed in their place (two levels), its io.Reader / io.Writer parameter standing for the connection; the guards that dominate the hand-over count with those in the helper (the payload is the same slice), a return of Send that follows the hand-over must propagate or test the helper's error, and a return of Receive must yield the helper's buffer with its error. A helper whose only use of the connection is one Write of its buffer parameter is a write wrapper. COMPLETENESS BEFORE VERDICT: when the connection flows into in-module code that is none of these (a frame built in Send and handed to a looping writer, several helpers), every clause of that direction is reported NOT DECIDED (discharged with a note) — a helper that HAS the shape of a read wrapper but breaks the io.ReadFull contract (bare Read, swallowed error, partial buffer) is still reported, and so is any use outside the module (bufio.NewReader …). " +
 		"NOT decided: behaviour under arbitrary TCP segmentation and under a connection cut mid-frame is IMPLIED by R3 through the io.ReadFull contract (trusted, see assumptions) and is not explored; concurrent Send calls on one transport; what the peer does with a frame; Connect/Close; whether net.Conn.Write itself is atomic; the count returned by Send."
 	r.Assumptions = []string{
 		"go/parser, go/types and the go/ssa builder of x/tools v0.50.0 are faithful to the source",
@@ -154,8 +157,8 @@ func runC11(c *Ctx) {
 	c.guard(c11R3, p.FuncName(recv)+": analysis", p.Rel(recv.Pos()), func() { x.receive(recv) })
 
 	// instance floors confirmed by reading today's tree
-	r.Floor(c11R1, 7) // Send frame[1..3]; Receive length bit 16, bits 15..8, bits 7..0, bits >= 17
-	r.Floor(c11R2, 3) // len(data) bound at Write; 0x1FFFF not refused; returns that bypass the Write carry an error
+	r.Floor(c11R1, 7)  // Send frame[1..3]; Receive length bit 16, bits 15..8, bits 7..0, bits >= 17
+	r.Floor(c11R2, 3)  // len(data) bound at Write; 0x1FFFF not refused; returns that bypass the Write carry an error
 	r.Floor(c11R3, 11) // Send: uses, contiguous frame; Receive: uses, 2×(ReadFull, error tested), 4-byte header, payload under header success, make(length), success return
 	r.Floor(c11R4, 2)
 }
@@ -181,6 +184,9 @@ type c11Use struct {
 	// make([]byte, size), fills it completely and returns it as result 0
 	alloc bool
 	size  ssa.Value
+	// helper: (kind other) the connection is handed to this in-module function,
+	// which none of the wrapper summaries describes
+	helper *ssa.Function
 }
 
 // connUses enumerates every use of the transport's connection in fn.
@@ -194,20 +200,47 @@ func (x *c11) connUses(fn *ssa.Function) []c11Use { return x.connUsesIn(fn, fals
 // under the read's failure edge / before the read, or returns nil under its
 // success edge. Returns the index of the buffer parameter.
 func (x *c11) readWrapper(h *ssa.Function, depth int) (int, bool) {
+	i, ok, _ := x.readWrapperD(h, depth)
+	return i, ok
+}
+
+// readWrapperD is readWrapper with a diagnosis: defect != "" means h HAS the
+// shape of a read wrapper (its one use of the connection is a read into its
+// buffer parameter) but breaks the contract — a bare Read, a minimum that is
+// not len(buf), a return that reports success although the read failed.
+func (x *c11) readWrapperD(h *ssa.Function, depth int) (idx int, ok bool, defect string) {
 	if h == nil || h.Blocks == nil || !x.P.InModule(h) || depth > 1 {
-		return 0, false
+		return 0, false, ""
 	}
 	res := h.Signature.Results()
 	if res.Len() < 1 || res.Len() > 2 || types.TypeString(res.At(res.Len()-1).Type(), nil) != "error" {
-		return 0, false
+		return 0, false, ""
 	}
 	uses := x.connUsesIn(h, true, depth+1)
 	if len(uses) != 1 || uses[0].call == nil {
-		return 0, false
+		return 0, false, ""
 	}
 	u := uses[0]
 	switch u.kind {
-	case "readfull":
+	case "readfull", "readatleast", "read":
+	default:
+		return 0, false, ""
+	}
+	bufIdx := -1
+	for i, q := range h.Params {
+		if ssa.Value(q) == u.buf {
+			bufIdx = i
+		}
+	}
+	if bufIdx < 0 {
+		return 0, false, ""
+	}
+	if res.Len() == 2 && prove.IsByteSeq(res.At(0).Type()) {
+		return 0, false, "" // result 0 is a buffer: that is the allocating form
+	}
+	switch u.kind {
+	case "read":
+		return 0, false, "it fills its buffer with a bare Read, which may return after any prefix of the requested bytes"
 	case "readatleast":
 		okMin := false
 		if args := u.call.Common().Args; len(args) == 3 {
@@ -218,22 +251,8 @@ func (x *c11) readWrapper(h *ssa.Function, depth int) (int, bool) {
 			}
 		}
 		if !okMin {
-			return 0, false
+			return 0, false, "io.ReadAtLeast with a minimum that is not len(buf)"
 		}
-	default:
-		return 0, false
-	}
-	bufIdx := -1
-	for i, q := range h.Params {
-		if ssa.Value(q) == u.buf {
-			bufIdx = i
-		}
-	}
-	if bufIdx < 0 {
-		return 0, false
-	}
-	if res.Len() == 2 && prove.IsByteSeq(res.At(0).Type()) {
-		return 0, false // result 0 is a buffer: that is the allocating form
 	}
 	succ, fail, errV := c11ErrEdges(u.call)
 	for _, b := range h.Blocks {
@@ -250,10 +269,118 @@ func (x *c11) readWrapper(h *ssa.Function, depth int) (int, bool) {
 		case c11Under(fail, b) && x.errCtor(ev):
 		case c11Under(succ, b) && isNil:
 		default:
+			return 0, false, "a return of the helper may report success although its read failed or was short"
+		}
+	}
+	return bufIdx, true, ""
+}
+
+// writeWrapper: h is an in-module helper whose only use of the connection —
+// the transport's field, or an io.Writer-like parameter — is exactly one Write
+// of one of its []byte parameters, unmodified, and which does not write that
+// parameter itself. Returns the index of the buffer parameter. (What h does
+// with the result of the Write is the caller's business: c11ErrEdges looks at
+// the error h returns.)
+func (x *c11) writeWrapper(h *ssa.Function, depth int) (int, bool) {
+	if h == nil || h.Blocks == nil || !x.P.InModule(h) || depth > 1 {
+		return 0, false
+	}
+	uses := x.connUsesIn(h, true, depth+1)
+	if len(uses) != 1 || uses[0].call == nil || uses[0].kind != "write" || uses[0].desc != "" {
+		return 0, false
+	}
+	u := uses[0]
+	bufIdx := -1
+	for i, q := range h.Params {
+		if ssa.Value(q) == c11FullView(u.buf) {
+			bufIdx = i
+		}
+	}
+	if bufIdx < 0 || !c11ParamOnlyRead(h.Params[bufIdx]) {
+		return 0, false
+	}
+	// the Write must happen on every path that reports success
+	res := h.Signature.Results()
+	if res.Len() == 0 || types.TypeString(res.At(res.Len()-1).Type(), nil) != "error" {
+		return 0, false
+	}
+	for _, b := range h.Blocks {
+		ret, ok := b.Instrs[len(b.Instrs)-1].(*ssa.Return)
+		if !ok {
+			continue
+		}
+		if !lanes.Dominates(u.call, ret) && !x.errCtor(ret.Results[len(ret.Results)-1]) {
 			return 0, false
 		}
 	}
 	return bufIdx, true
+}
+
+// readDefect: h has the shape of a read wrapper or of an allocating reader but
+// breaks its contract (positively observed inside h).
+func (x *c11) readDefect(h *ssa.Function, depth int) string {
+	if _, _, d := x.readWrapperD(h, depth); d != "" {
+		return d
+	}
+	if _, _, d := x.allocReaderD(h, depth); d != "" {
+		return d
+	}
+	return ""
+}
+
+// c11ParamOnlyRead: the []byte parameter is only read (len, element loads,
+// re-slices that are only read, passed to Write).
+func c11ParamOnlyRead(p ssa.Value) bool {
+	ok := true
+	var walk func(v ssa.Value, d int)
+	walk = func(v ssa.Value, d int) {
+		if d > 4 || v.Referrers() == nil {
+			ok = false
+			return
+		}
+		for _, r := range *v.Referrers() {
+			switch y := r.(type) {
+			case *ssa.DebugRef:
+			case *ssa.Slice:
+				walk(y, d+1)
+			case *ssa.IndexAddr:
+				for _, rr := range *y.Referrers() {
+					if u, isLd := rr.(*ssa.UnOp); isLd && u.Op == token.MUL {
+						continue
+					}
+					if _, isDbg := rr.(*ssa.DebugRef); isDbg {
+						continue
+					}
+					ok = false
+				}
+			case ssa.CallInstruction:
+				cc := y.Common()
+				if b, isB := cc.Value.(*ssa.Builtin); isB && (b.Name() == "len" || b.Name() == "cap") {
+					continue
+				}
+				if cc.IsInvoke() && cc.Method.Name() == "Write" {
+					continue
+				}
+				ok = false
+			default:
+				ok = false
+			}
+		}
+	}
+	walk(p, 0)
+	return ok
+}
+
+// touchesConn: fn (a method of the transport) uses the connection — reads,
+// writes, hands it on — in a way other than closing it, setting deadlines or
+// comparing it with nil, directly or through a further method of the transport.
+func (x *c11) touchesConn(fn *ssa.Function, d int) bool {
+	if fn == nil || fn.Blocks == nil || x.touchDepth > 2 {
+		return false
+	}
+	x.touchDepth++
+	defer func() { x.touchDepth-- }()
+	return len(x.connUsesIn(fn, false, 2)) > 0
 }
 
 // allocReader: h is an in-module helper func(…, n int, …) ([]byte, error) that
@@ -262,21 +389,32 @@ func (x *c11) readWrapper(h *ssa.Function, depth int) (int, bool) {
 // succeeded (any other return carries a certain error or the read's own).
 // Returns the index of the size parameter.
 func (x *c11) allocReader(h *ssa.Function, depth int) (int, bool) {
+	i, ok, _ := x.allocReaderD(h, depth)
+	return i, ok
+}
+
+// allocReaderD is allocReader with a diagnosis (see readWrapperD).
+func (x *c11) allocReaderD(h *ssa.Function, depth int) (idx int, ok bool, defect string) {
 	if h == nil || h.Blocks == nil || !x.P.InModule(h) || depth > 1 {
-		return 0, false
+		return 0, false, ""
 	}
 	res := h.Signature.Results()
 	if res.Len() != 2 || !prove.IsByteSeq(res.At(0).Type()) || types.TypeString(res.At(1).Type(), nil) != "error" {
-		return 0, false
+		return 0, false, ""
 	}
 	uses := x.connUsesIn(h, true, depth+1)
-	if len(uses) != 1 || uses[0].call == nil || uses[0].kind != "readfull" || uses[0].alloc {
-		return 0, false
+	if len(uses) != 1 || uses[0].call == nil || uses[0].alloc {
+		return 0, false, ""
 	}
 	u := uses[0]
+	switch u.kind {
+	case "readfull", "readatleast", "read":
+	default:
+		return 0, false, ""
+	}
 	mk, ok := c11FullView(u.buf).(*ssa.MakeSlice)
 	if !ok || (mk.Cap != nil && mk.Cap != mk.Len) {
-		return 0, false
+		return 0, false, ""
 	}
 	sizeIdx := -1
 	sz := mk.Len
@@ -295,7 +433,11 @@ func (x *c11) allocReader(h *ssa.Function, depth int) (int, bool) {
 		}
 	}
 	if sizeIdx < 0 {
-		return 0, false
+		return 0, false, ""
+	}
+	// from here on h has the shape of an allocating reader
+	if u.kind != "readfull" {
+		return 0, false, "it fills the buffer it allocates with " + map[string]string{"read": "a bare Read, which may return after any prefix of the requested bytes", "readatleast": "io.ReadAtLeast"}[u.kind]
 	}
 	// the buffer must not be written by anything but the read
 	for _, r := range *mk.Referrers() {
@@ -304,15 +446,21 @@ func (x *c11) allocReader(h *ssa.Function, depth int) (int, bool) {
 		case ssa.CallInstruction:
 			if y != u.call {
 				if b, isB := y.Common().Value.(*ssa.Builtin); !isB || b.Name() != "len" {
-					return 0, false
+					return 0, false, ""
 				}
 			}
 		case *ssa.Slice:
 			if c11FullView(y) != ssa.Value(mk) {
-				return 0, false
+				// a proper sub-slice: only a defect if it is what gets returned
+				for _, rr := range *y.Referrers() {
+					if _, isRet := rr.(*ssa.Return); isRet {
+						return 0, false, "it returns a sub-slice of the buffer it read into (a partial buffer when the stream ends inside it)"
+					}
+				}
+				return 0, false, ""
 			}
 		default:
-			return 0, false
+			return 0, false, ""
 		}
 	}
 	succ, fail, errV := c11ErrEdges(u.call)
@@ -332,10 +480,13 @@ func (x *c11) allocReader(h *ssa.Function, depth int) (int, bool) {
 		case !lanes.Dominates(u.call, ret) && x.errCtor(ev):
 		case c11Under(fail, b) && x.errCtor(ev):
 		default:
-			return 0, false
+			return 0, false, "a return of the helper may report success although its read failed or was short"
 		}
 	}
-	return sizeIdx, nsucc > 0
+	if nsucc == 0 {
+		return 0, false, "no return of the helper yields the buffer it read under the success edge of the read"
+	}
+	return sizeIdx, true, ""
 }
 
 // c11FullView strips full re-slices buf[:] / buf[0:len(buf)].
@@ -369,10 +520,10 @@ func (x *c11) connUsesIn(fn *ssa.Function, wrapper bool, depth int) []c11Use {
 	derived := map[ssa.Value]bool{}
 	var work []ssa.Value
 	if wrapper {
-		// an io.Reader-like parameter stands for the connection
+		// an io.Reader- / io.Writer-like parameter stands for the connection
 		for _, q := range fn.Params {
 			if it, ok := q.Type().Underlying().(*types.Interface); ok && it != nil {
-				if ms := types.NewMethodSet(q.Type()); ms.Lookup(nil, "Read") != nil {
+				if ms := types.NewMethodSet(q.Type()); ms.Lookup(nil, "Read") != nil || ms.Lookup(nil, "Write") != nil {
 					derived[q] = true
 					work = append(work, q)
 				}
@@ -478,12 +629,24 @@ func (x *c11) connUsesIn(fn *ssa.Function, wrapper bool, depth int) []c11Use {
 						uses = append(uses, c11Use{call: y, kind: "readfull", alloc: true, size: cc.Args[si], buf: c11Result0(y), desc: "through " + fnc.Name()})
 						continue
 					}
+					if bi, ok := x.writeWrapper(fnc, depth); ok && bi < len(cc.Args) {
+						uses = append(uses, c11Use{call: y, kind: "write", buf: cc.Args[bi], desc: "through " + fnc.Name()})
+						continue
+					}
+					if d := x.readDefect(fnc, depth); d != "" {
+						uses = append(uses, c11Use{call: y, kind: "other", desc: "the read helper " + fnc.Name() + " does not keep the io.ReadFull contract: " + d})
+						continue
+					}
 				}
 				name := "a dynamic callee"
+				var inMod *ssa.Function
 				if fnc := cc.StaticCallee(); fnc != nil {
 					name = fnc.String()
+					if !cc.IsInvoke() && fnc.Blocks != nil && x.P.InModule(fnc) {
+						inMod = fnc
+					}
 				}
-				uses = append(uses, c11Use{call: y, kind: "other", desc: "connection passed to " + name})
+				uses = append(uses, c11Use{call: y, kind: "other", desc: "connection passed to " + name, helper: inMod})
 			default:
 				uses = append(uses, c11Use{kind: "other", desc: fmt.Sprintf("connection value used by %T", rr)})
 			}
@@ -510,6 +673,16 @@ func (x *c11) connUsesIn(fn *ssa.Function, wrapper bool, depth int) []c11Use {
 				} else if si, ok := x.allocReader(fnc, depth); ok && si < len(cc.Args) {
 					seen[rr] = true
 					uses = append(uses, c11Use{call: ci, kind: "readfull", alloc: true, size: cc.Args[si], buf: c11Result0(ci), desc: "through " + fnc.Name()})
+				} else if bi, ok := x.writeWrapper(fnc, depth); ok && bi < len(cc.Args) {
+					seen[rr] = true
+					uses = append(uses, c11Use{call: ci, kind: "write", buf: cc.Args[bi], desc: "through " + fnc.Name()})
+				} else if d := x.readDefect(fnc, depth); d != "" {
+					seen[rr] = true
+					uses = append(uses, c11Use{call: ci, kind: "other", desc: "the read helper " + fnc.Name() + " does not keep the io.ReadFull contract: " + d})
+				} else if fnc.Blocks != nil && x.P.InModule(fnc) && x.touchesConn(fnc, 0) {
+					// a method of the transport that uses the connection in some other way
+					seen[rr] = true
+					uses = append(uses, c11Use{call: ci, kind: "other", desc: "the transport is handed to " + fnc.String() + ", which uses the connection", helper: fnc})
 				}
 			}
 		}
@@ -776,6 +949,7 @@ func (x *c11) send(fn *ssa.Function) {
 	p, r := x.P, x.R
 	fname := p.FuncName(fn)
 	pos := p.Rel(fn.Pos())
+	_ = p
 	// the payload parameter: the only []byte parameter
 	var data *ssa.Parameter
 	for _, q := range fn.Params[1:] {
@@ -791,7 +965,96 @@ func (x *c11) send(fn *ssa.Function) {
 		r.Undecided("anchor", fname+": payload parameter", pos, "Send does not have exactly one []byte parameter")
 		return
 	}
-	uses := x.connUses(fn)
+	x.sendIn(fn, data, fname, pos, nil)
+}
+
+// c11Outer: a function that hands the connection (and, for Send, the payload)
+// to the in-module helper being analysed in its place.
+type c11Outer struct {
+	fn   *ssa.Function
+	call *ssa.Call
+	data ssa.Value
+	next *c11Outer
+}
+
+func (o *c11Outer) depth() int {
+	n := 0
+	for ; o != nil; o = o.next {
+		n++
+	}
+	return n
+}
+
+func (o *c11Outer) chain() string {
+	var parts []string
+	for ; o != nil; o = o.next {
+		parts = append([]string{o.fn.Name()}, parts...)
+	}
+	return strings.Join(parts, " → ")
+}
+
+// c11Delegate: the function's ONLY use of the connection is to hand it — or
+// the transport itself — to one in-module helper that none of the wrapper
+// summaries describes. why != "" says why the helper cannot be analysed in the
+// function's place.
+func c11Delegate(uses []c11Use) (h *ssa.Function, call *ssa.Call, why string) {
+	var helpers []c11Use
+	for _, u := range uses {
+		if u.kind == "other" && u.helper != nil {
+			helpers = append(helpers, u)
+		} else if u.kind == "other" {
+			return nil, nil, ""
+		}
+	}
+	if len(helpers) == 0 {
+		return nil, nil, ""
+	}
+	if len(uses) != 1 {
+		return nil, nil, fmt.Sprintf("the connection is used directly and also handed to %s", helpers[0].helper.String())
+	}
+	c, ok := helpers[0].call.(*ssa.Call)
+	if !ok {
+		return nil, nil, fmt.Sprintf("%s is started with go/defer", helpers[0].helper.String())
+	}
+	return helpers[0].helper, c, ""
+}
+
+// notDecided reports the listed constructs as not decided (COMPLETENESS BEFORE
+// VERDICT: the connection flows into code this rule did not analyse, so no
+// claim — and no alarm — is made about what is done with it).
+func (x *c11) notDecided(pos, why string, constructs ...[2]string) {
+	for _, k := range constructs {
+		x.R.OK(k[0], k[1], pos, "NOT DECIDED — "+why)
+	}
+}
+
+func (x *c11) sendConstructs(fname, dname string) [][2]string {
+	return [][2]string{
+		{c11R3, fname + ": every use of the connection is a Write"},
+		{c11R3, fname + ": conn.Write emits header ++ data contiguously"},
+		{c11R4, fname + ": frame[0] (TYPE) == " + x.sessNm},
+		{c11R1, fname + ": frame[1] (FLAGS) == 0000000·len(" + dname + ")[16]"},
+		{c11R1, fname + ": frame[2] == len(" + dname + ")[15..8]"},
+		{c11R1, fname + ": frame[3] == len(" + dname + ")[7..0]"},
+		{c11R2, fname + ": len(" + dname + ") fits the length bits the header carries, at conn.Write"},
+		{c11R2, fname + ": payloads up to 0x1FFFF bytes are not refused"},
+		{c11R2, fname + ": every return that bypasses conn.Write carries a non-nil error"},
+	}
+}
+
+// sendIn analyses fn as the body of Send: directly, or (outer != nil) as the
+// helper Send hands its connection and payload to.
+func (x *c11) sendIn(fn *ssa.Function, data *ssa.Parameter, fname, pos string, outer *c11Outer) {
+	p, r := x.P, x.R
+	dname := data.Name()
+	if o := outer; o != nil {
+		for ; o.next != nil; o = o.next {
+		}
+		if q, ok := o.data.(*ssa.Parameter); ok {
+			dname = q.Name() // construct keys name Send's own parameter
+		}
+	}
+	uses := x.connUsesIn(fn, outer != nil, 0)
 	var writes []c11Use
 	var other []string
 	for _, u := range uses {
@@ -804,13 +1067,43 @@ func (x *c11) send(fn *ssa.Function) {
 			other = append(other, "connection is read in Send ("+u.kind+")")
 		}
 	}
+	if h, call, why := c11Delegate(uses); h != nil || why != "" {
+		if h != nil {
+			hd := -1
+			for i, a := range call.Call.Args {
+				if c11FullView(a) == ssa.Value(data) && i < len(h.Params) && prove.IsByteSeq(h.Params[i].Type()) {
+					if hd >= 0 {
+						hd = -2
+						break
+					}
+					hd = i
+				}
+			}
+			switch {
+			case hd < 0:
+				why = fmt.Sprintf("the connection is handed to %s together with something other than the caller's payload (a frame built here, presumably); that helper is not analysed", h.String())
+			case outer.depth() >= 2:
+				why = fmt.Sprintf("the connection is handed on through more than two helpers (%s → %s)", outer.chain(), h.Name())
+			default:
+				x.sendIn(h, h.Params[hd], fname, pos, &c11Outer{fn: fn, call: call, data: data, next: outer})
+				return
+			}
+		}
+		x.notDecided(pos, why, x.sendConstructs(fname, dname)...)
+		r.Note("C11 %s: NOT DECIDED — %s", fname, why)
+		return
+	}
+	via := ""
+	if outer != nil {
+		via = " (in " + fn.Name() + ", which " + outer.chain() + " hands the connection and the payload to)"
+	}
 	if len(other) > 0 {
-		r.Undecided(c11R3, fname+": every use of the connection is a Write", pos, "unrecognised use: "+strings.Join(other, "; "))
+		r.Undecided(c11R3, fname+": every use of the connection is a Write", pos, "unrecognised use: "+strings.Join(other, "; ")+via)
 	} else {
-		r.OK(c11R3, fname+": every use of the connection is a Write", pos, fmt.Sprintf("%d Write call(s)", len(writes)))
+		r.OK(c11R3, fname+": every use of the connection is a Write", pos, fmt.Sprintf("%d Write call(s)", len(writes))+via)
 	}
 	if len(writes) == 0 {
-		r.Undecided(c11R3, fname+": conn.Write emits header ++ data contiguously", pos, "no Write on the connection found in Send")
+		r.Undecided(c11R3, fname+": conn.Write emits header ++ data contiguously", pos, "no Write on the connection found in Send"+via)
 		return
 	}
 	// order the writes by dominance
@@ -835,9 +1128,28 @@ func (x *c11) send(fn *ssa.Function) {
 	cxW := fi.CtxAt(writes[0].call.Block())
 	lenF := cxW.LenOf(data)
 	pow := func(k int) *big.Int { return new(big.Int).Sub(new(big.Int).Lsh(big.NewInt(1), uint(k)), big.NewInt(1)) }
+	// the guards that dominate the Write here, and — the payload being the same
+	// slice all the way down — those that dominate the hand-over in each caller
+	type lenCtx struct {
+		cx   *prove.Ctx
+		lenF lin.Form
+	}
+	ctxs := []lenCtx{{cxW, lenF}}
+	for o := outer; o != nil; o = o.next {
+		cx := x.w.Info(o.fn).CtxBefore(o.call)
+		ctxs = append(ctxs, lenCtx{cx, cx.LenOf(o.data)})
+	}
+	proveLenLE := func(k *big.Int) bool {
+		for _, c := range ctxs {
+			if c.cx.Prove(lin.LE(c.lenF, lin.KB(k))) {
+				return true
+			}
+		}
+		return false
+	}
 	knownZeroFrom := 63
 	for m := c11LenBits; m < 63; m++ {
-		if cxW.Prove(lin.LE(lenF, lin.KB(pow(m)))) {
+		if proveLenLE(pow(m)) {
 			knownZeroFrom = m
 			break
 		}
@@ -924,11 +1236,11 @@ func (x *c11) send(fn *ssa.Function) {
 	}
 	x.R.Extra["send_writes"] = len(writes)
 
-	c1 := fname + ": frame[1] (FLAGS) == 0000000·len(" + data.Name() + ")[16]"
-	c2 := fname + ": frame[2] == len(" + data.Name() + ")[15..8]"
-	c3 := fname + ": frame[3] == len(" + data.Name() + ")[7..0]"
+	c1 := fname + ": frame[1] (FLAGS) == 0000000·len(" + dname + ")[16]"
+	c2 := fname + ": frame[2] == len(" + dname + ")[15..8]"
+	c3 := fname + ": frame[3] == len(" + dname + ")[7..0]"
 	c0 := fname + ": frame[0] (TYPE) == " + x.sessNm
-	cg := fname + ": len(" + data.Name() + ") fits the length bits the header carries, at conn.Write"
+	cg := fname + ": len(" + dname + ") fits the length bits the header carries, at conn.Write"
 	if !shapeOK {
 		why := "the header bytes could not be located (see " + c11R3 + ")"
 		r.Undecided(c11R4, c0, wpos, why)
@@ -982,7 +1294,7 @@ func (x *c11) send(fn *ssa.Function) {
 			max := pow(k)
 			cx := cxW
 			goal := lin.LE(lenF, lin.KB(max))
-			if cx.Prove(goal) {
+			if proveLenLE(max) {
 				r.OK(c11R2, cg, wpos, fmt.Sprintf("header carries bits 0..%d of the length; dominating guards entail len(%s) <= %#x at the first Write", k-1, data.Name(), max))
 			} else {
 				wit := new(big.Int).Add(max, big.NewInt(1))
@@ -995,7 +1307,7 @@ func (x *c11) send(fn *ssa.Function) {
 
 	// R2c: the guard must not refuse what the 17-bit field can express
 	cr := fname + ": payloads up to 0x1FFFF bytes are not refused"
-	if cxW.Prove(lin.LE(lenF, lin.KB(new(big.Int).Sub(pow(c11LenBits), big.NewInt(1))))) {
+	if proveLenLE(new(big.Int).Sub(pow(c11LenBits), big.NewInt(1))) {
 		r.Fail(c11R2, cr, wpos, fmt.Sprintf("the guards that dominate conn.Write entail len(%s) <= 0x1FFFE: a payload of 0x1FFFF bytes, which the 17-bit length field can express, never reaches the Write", data.Name()))
 	} else {
 		r.OK(c11R2, cr, wpos, "no dominating guard excludes len("+data.Name()+") = 0x1FFFF (necessary condition only: reachability of the Write is not proved)")
@@ -1024,7 +1336,37 @@ func (x *c11) send(fn *ssa.Function) {
 			bad++
 		}
 	}
-	if bad > 0 {
+	// callers that handed the connection down: a return that bypasses the
+	// hand-over must carry an error, and one that follows it must not drop the
+	// error the helper reports
+	dropped := 0
+	for o := outer; o != nil; o = o.next {
+		succ, fail, errV := c11ErrEdges(o.call)
+		for _, b := range o.fn.Blocks {
+			ret, ok := b.Instrs[len(b.Instrs)-1].(*ssa.Return)
+			if !ok || len(ret.Results) == 0 {
+				continue
+			}
+			ev := ret.Results[len(ret.Results)-1]
+			if !lanes.Dominates(o.call, ret) {
+				nret++
+				if !x.errCtor(ev) {
+					bad++
+				}
+				continue
+			}
+			switch {
+			case errV != nil && ev == errV:
+			case c11Under(fail, b) && x.errCtor(ev):
+			case c11Under(succ, b):
+			default:
+				dropped++
+			}
+		}
+	}
+	if dropped > 0 {
+		r.Fail(c11R2, cb, pos, fmt.Sprintf("%d return(s) of %s that follow the call of the framing helper neither propagate its error nor test it: a payload the helper refuses (nothing written) is reported as sent", dropped, outer.chain()))
+	} else if bad > 0 {
 		r.Fail(c11R2, cb, pos, fmt.Sprintf("%d of %d returns that are not dominated by a Write may return a nil error: the payload is dropped silently instead of refused", bad, nret))
 	} else {
 		r.OK(c11R2, cb, pos, fmt.Sprintf("%d early return(s), all with fmt.Errorf/errors.New/concrete error values/sentinel errors", nret))
@@ -1035,10 +1377,35 @@ func (x *c11) send(fn *ssa.Function) {
 // Receive
 
 func (x *c11) receive(fn *ssa.Function) {
+	x.receiveIn(fn, x.P.FuncName(fn), x.P.Rel(fn.Pos()), nil)
+}
+
+func (x *c11) receiveConstructs(fname string) [][2]string {
+	out := [][2]string{
+		{c11R3, fname + ": every use of the connection is io.ReadFull/io.ReadAtLeast"},
+	}
+	for _, role := range []string{"header", "payload"} {
+		out = append(out, [2]string{c11R3, fmt.Sprintf("%s: %s read uses io.ReadFull (never a bare Read)", fname, role)},
+			[2]string{c11R3, fmt.Sprintf("%s: error of the %s read is tested", fname, role)})
+	}
+	return append(out,
+		[2]string{c11R3, fname + ": header read fills exactly 4 bytes"},
+		[2]string{c11R3, fname + ": payload read is dominated by the success edge of the header read"},
+		[2]string{c11R3, fname + ": payload read fills make([]byte, length), length = the decoded header length"},
+		[2]string{c11R3, fname + ": return #1 with a possibly-nil error yields the fully read payload buffer"},
+		[2]string{c11R1, fname + ": payload length bit 16 <- header[1] bit 0"},
+		[2]string{c11R1, fname + ": payload length bits 15..8 <- header[2]"},
+		[2]string{c11R1, fname + ": payload length bits 7..0 <- header[3]"},
+		[2]string{c11R1, fname + ": payload length bits 63..17 == 0"},
+		[2]string{c11R4, fname + ": payload is allocated only when header[0] == " + x.sessNm},
+	)
+}
+
+// receiveIn analyses fn as the body of Receive: directly, or (outer != nil)
+// as the helper Receive hands its connection to.
+func (x *c11) receiveIn(fn *ssa.Function, fname, pos string, outer *c11Outer) {
 	p, r := x.P, x.R
-	fname := p.FuncName(fn)
-	pos := p.Rel(fn.Pos())
-	uses := x.connUses(fn)
+	uses := x.connUsesIn(fn, outer != nil, 0)
 	var reads []c11Use
 	var other []string
 	for _, u := range uses {
@@ -1051,11 +1418,32 @@ func (x *c11) receive(fn *ssa.Function) {
 			other = append(other, u.desc)
 		}
 	}
+	if h, call, why := c11Delegate(uses); h != nil || why != "" {
+		if h != nil {
+			res := h.Signature.Results()
+			switch {
+			case res.Len() != 2 || !prove.IsByteSeq(res.At(0).Type()) || types.TypeString(res.At(1).Type(), nil) != "error":
+				why = fmt.Sprintf("the connection is handed to %s, which does not return (payload, error); that helper is not analysed", h.String())
+			case outer.depth() >= 2:
+				why = fmt.Sprintf("the connection is handed on through more than two helpers (%s → %s)", outer.chain(), h.Name())
+			default:
+				x.receiveIn(h, fname, pos, &c11Outer{fn: fn, call: call, next: outer})
+				return
+			}
+		}
+		x.notDecided(pos, why, x.receiveConstructs(fname)...)
+		r.Note("C11 %s: NOT DECIDED — %s", fname, why)
+		return
+	}
+	via := ""
+	if outer != nil {
+		via = " (in " + fn.Name() + ", which " + outer.chain() + " hands the connection to)"
+	}
 	cu := fname + ": every use of the connection is io.ReadFull/io.ReadAtLeast"
 	if len(other) > 0 {
-		r.Undecided(c11R3, cu, pos, "unrecognised use: "+strings.Join(other, "; "))
+		r.Undecided(c11R3, cu, pos, "unrecognised use: "+strings.Join(other, "; ")+via)
 	} else {
-		r.OK(c11R3, cu, pos, fmt.Sprintf("%d read call(s)", len(reads)))
+		r.OK(c11R3, cu, pos, fmt.Sprintf("%d read call(s)", len(reads))+via)
 	}
 	r.Extra["receive_reads"] = len(reads)
 	sort.SliceStable(reads, func(i, j int) bool { return lanes.Dominates(reads[i].call, reads[j].call) })
@@ -1271,6 +1659,40 @@ func (x *c11) receive(fn *ssa.Function) {
 	}
 	if ord == 0 {
 		r.Undecided(c11R3, fname+": a success return exists", pos, "no return with a possibly-nil error found")
+	}
+	// callers that handed the connection down must return what the helper
+	// returned: its buffer with its error, or an error of their own
+	for o := outer; o != nil; o = o.next {
+		succ, fail, errV := c11ErrEdges(o.call)
+		buf0 := c11Result0(o.call)
+		for _, b := range o.fn.Blocks {
+			ret, ok := b.Instrs[len(b.Instrs)-1].(*ssa.Return)
+			if !ok || len(ret.Results) != 2 {
+				continue
+			}
+			ev := ret.Results[1]
+			if x.errCtor(ev) {
+				continue
+			}
+			if errV != nil && ev == errV && c11Under(fail, b) {
+				continue
+			}
+			cr := fmt.Sprintf("%s: a return of %s with a possibly-nil error yields the payload its framing helper returned", fname, o.fn.Name())
+			rpos := p.Rel(ret.Pos())
+			follows := lanes.Dominates(o.call, ret)
+			sameBuf := buf0 != nil && c11FullView(ret.Results[0]) == buf0
+			switch {
+			case follows && sameBuf && errV != nil && ev == errV:
+				// return helper(conn): buffer and error travel together
+			case follows && sameBuf && c11Under(succ, b):
+			case !follows:
+				r.Fail(c11R3, cr, rpos, "the return is not preceded by the call that reads the frame: a message is returned with a nil error although nothing was read")
+			case !sameBuf:
+				r.Undecided(c11R3, cr, rpos, "the returned slice is not the buffer the framing helper returned: "+an.Expr(ret.Results[0]))
+			default:
+				r.Fail(c11R3, cr, rpos, "the helper's error is neither returned with its buffer nor tested before the buffer is returned: a stream that ended inside the frame yields a message with a nil error")
+			}
+		}
 	}
 	r.Extra["receive_success_returns"] = ord
 	if len(an.Why) > 0 {
